@@ -295,19 +295,21 @@ type printer struct {
 	exportDefaultStart int
 	arrowExprStart     int
 	forOfInitStart     int
+	forInitExprStart   int
 
-	withNesting          int
-	prevOpEnd            int
-	needSpaceBeforeDot   int
-	prevRegExpEnd        int
-	noLeadingNewlineHere int
-	oldLineStart         int
-	oldLineEnd           int
-	intToBytesBuffer     [64]byte
-	needsSemicolon       bool
-	wasLazyExport        bool
-	prevOp               js_ast.OpCode
-	moduleType           js_ast.ModuleType
+	withNesting             int
+	prevOpEnd               int
+	needSpaceBeforeDot      int
+	prevRegExpEnd           int
+	prevIdentifierEscapeEnd int
+	noLeadingNewlineHere    int
+	oldLineStart            int
+	oldLineEnd              int
+	intToBytesBuffer        [64]byte
+	needsSemicolon          bool
+	wasLazyExport           bool
+	prevOp                  js_ast.OpCode
+	moduleType              js_ast.ModuleType
 }
 
 func (p *printer) print(text string) {
@@ -448,8 +450,18 @@ func (p *printer) canPrintIdentifierUTF16(name []uint16) bool {
 func (p *printer) printIdentifier(name string) {
 	if p.options.ASCIIOnly {
 		p.js = QuoteIdentifier(p.js, name, p.options.UnsupportedFeatures)
+		p.recordIdentifierEscapeEnd()
 	} else {
 		p.print(name)
+	}
+}
+
+// An identifier that ends in a "\u{...}" escape ends in "}", which is not an
+// identifier character. Remember where it ends so that a space is still
+// inserted before a following identifier or keyword (e.g. "\u{10000} from").
+func (p *printer) recordIdentifierEscapeEnd() {
+	if n := len(p.js); n > 0 && p.js[n-1] == '}' {
+		p.prevIdentifierEscapeEnd = n
 	}
 }
 
@@ -482,6 +494,9 @@ func (p *printer) printIdentifierUTF16(name []uint16) {
 
 		width := utf8.EncodeRune(temp[:], c)
 		p.js = append(p.js, temp[:width]...)
+	}
+	if p.options.ASCIIOnly && n > 0 {
+		p.recordIdentifierEscapeEnd()
 	}
 }
 
@@ -854,7 +869,7 @@ func (p *printer) printSemicolonIfNeeded() {
 }
 
 func (p *printer) printSpaceBeforeIdentifier() {
-	if c, _ := utf8.DecodeLastRune(p.js); js_ast.IsIdentifierContinue(c) || p.prevRegExpEnd == len(p.js) {
+	if c, _ := utf8.DecodeLastRune(p.js); js_ast.IsIdentifierContinue(c) || p.prevRegExpEnd == len(p.js) || p.prevIdentifierEscapeEnd == len(p.js) {
 		p.print(" ")
 	}
 }
@@ -4984,12 +4999,14 @@ func Print(tree js_ast.AST, symbols ast.SymbolMap, r renamer.Renamer, options Op
 		exportDefaultStart: -1,
 		arrowExprStart:     -1,
 		forOfInitStart:     -1,
+		forInitExprStart:   -1,
 
-		prevOpEnd:            -1,
-		needSpaceBeforeDot:   -1,
-		prevRegExpEnd:        -1,
-		noLeadingNewlineHere: -1,
-		builder:              sourcemap.MakeChunkBuilder(options.InputSourceMap, options.LineOffsetTables, options.ASCIIOnly),
+		prevOpEnd:               -1,
+		needSpaceBeforeDot:      -1,
+		prevRegExpEnd:           -1,
+		prevIdentifierEscapeEnd: -1,
+		noLeadingNewlineHere:    -1,
+		builder:                 sourcemap.MakeChunkBuilder(options.InputSourceMap, options.LineOffsetTables, options.ASCIIOnly),
 	}
 
 	if p.exprComments != nil {
